@@ -465,6 +465,10 @@ class Exec(Interp):
         self.pure = True
         try:
             return self.ev(node, sub)
+        except PyExc as ex:
+            if was:
+                raise
+            raise Unsupported('contract expression %r may raise %s on this path' % (text[:80], ex.cls))
         finally:
             self.pure = was
 
